@@ -86,7 +86,7 @@ class C12(PropBase):
             'Overflow, silent, Wait, late} x stop_sending()/reset() at random points x blocking_send on (send_timeout=0) / off, followed by a '
             'watchdog phase: every accepted request has exactly one outcome, success only once its last frame has been produced, stop/reset give '
             'failure; distinct = (cfg class, op shape)')
-    assumptions = ['logic level: single thread; blocking_send exercised with send_timeout=0 (the threaded variant is sampled by C13/C14 scenarios)']
+    assumptions = ['logic level: single thread, blocking_send exercised with send_timeout=0', 'blocking clause: real threads, sampled schedules with perturbation at the per-request synchronisation points (Event.set/clear, tx_queue.put)']
     quick_per_shard = 150
     thorough_per_shard = 5000
 
@@ -98,13 +98,55 @@ class C12(PropBase):
                     op['params']['blocking_send'] = True
         return sc
 
+    # ---- the blocking-send clause needs real threads: a few scenarios per run use the C13 runner (two started peers, sender threads
+    #      blocked in send(), schedule perturbation at the per-request synchronisation points) and judge what each caller observed
+    threaded_quick = 1
+    threaded_thorough = 40
+
+    def generate(self, rng, tier, shard, nshards, scale):
+        for sc in PropBase.generate(self, rng, tier, shard, nshards, scale):
+            yield sc
+        from props import C13 as c13
+        n = self.threaded_quick if tier == 'quick' else self.threaded_thorough
+        for _ in range(max(1, int(n * min(scale, 2)))):
+            sc = c13.PROP.scenario(rng, tier)
+            sc['transport'] = rng.choice(['queue_blocking', 'queue_blocking', 'queue_legacy'])
+            sc['noise'] = False
+            sc['perturb'] = rng.choice([0.3, 0.6, 0.9])
+            for p in sc['params']:
+                p['blocking_send'] = True
+            sc['threaded'] = True
+            sc['no_model'] = True      # the replay of threaded runs through the model is C13's correspondence; here only the callers' view is judged
+            yield sc
+
+    def run_impl(self, sc):
+        if sc.get('threaded'):
+            from props import C13 as c13
+            return c13.run_threaded(sc)
+        return PropBase.run_impl(self, sc)
+
     def project(self, op_line, out_line):
         return trace.project_events(out_line, keep=('done', 'tx'), status_keys=('tr', 'q'), drop_times=True)
 
     def judge(self, sc, lines_in, impl_out):
+        if sc.get('threaded'):
+            res = sc.get('_result') or {}
+            out = []
+            if res.get('send_exc'):
+                out.append(('blocking', 'blocking send() raised %s although every payload was transmitted completely (peer cooperative, no abort)' % res['send_exc'][:3]))
+            if res.get('stuck_senders'):
+                out.append(('blocking', 'caller threads still blocked in send() after all transfers ended: %s' % res['stuck_senders']))
+            for s_, d_ in ((0, 1), (1, 0)):
+                sent = [p for items in sc['senders'][s_] for (_, p) in items]
+                got = (res.get('received') or {}).get(d_, [])
+                if sorted(got) != sorted(sent):
+                    out.append(('blocking', 'send() returned normally for %d payloads of layer %d but the peer received %d' % (len(sent), s_, len(got))))
+            return out[:3]
         return judge_outcomes_exist(sc, lines_in, impl_out) + judge_success_late(sc, lines_in, impl_out)
 
     def nontrivial_key(self, sc, lines_in, impl_out):
+        if sc.get('threaded'):
+            return ('threaded', sc['transport'], tuple(len(x) for x in sc['senders'][0]), tuple(len(x) for x in sc['senders'][1]), sc['perturb'], sc['seed'])
         shape = []
         for l, o in zip(lines_in, impl_out):
             t = l.split()[0]
@@ -117,6 +159,10 @@ class C12(PropBase):
         return (lens, tuple(shape[:30]))
 
     def tally(self, dist, sc, lines_in, impl_out):
+        if sc.get('threaded'):
+            dist['threaded_blocking_scenarios'] = dist.get('threaded_blocking_scenarios', 0) + 1
+            dist['blocking_send_calls'] = dist.get('blocking_send_calls', 0) + sum(len(x) for s_ in (0, 1) for x in sc['senders'][s_])
+            return
         PropBase.tally(self, dist, sc, lines_in, impl_out)
         for l in impl_out:
             for e in l.split('|')[0].split(';'):
